@@ -24,7 +24,7 @@ ASSUMPTIONS = ["forward wall-clock jumps are excluded by the statement", "the do
 PROBES = ["late_cycle", "catch_up_after_late_cycle", "backward_step_before_run", "backward_step_in_recur", "backward_step_in_sleep",
           "stall_in_sleep", "sleep_overshoot", "tock_changed_before_run"]
 BOUNDS = dict(quick=dict(cycles=12), thorough=dict(cycles=40))
-TIERS = dict(quick=dict(cases=30000, wall=30.0), thorough=dict(cases=4000000, wall=420.0))
+TIERS = dict(quick=dict(cases=100000, wall=60.0), thorough=dict(cases=4000000, wall=420.0))
 SIM_TIME_UNIT = "simulated true seconds"
 
 
